@@ -110,8 +110,12 @@ Definition parse_go_slice_args (pi : input) (expr : bytes) : expression * input 
 
 (* goexpression/parse.go SliceArgs: the arithmetic on the composite literal found by go/parser.
      src := prefix + content + "}"; from = Lbrace; to = Rbrace-1; for elts: to = e.End()-1; clamp to Rbrace-1;
-     if src[to:Rbrace-1] holds anything but white space, to = Rbrace-1; return src[from:to]
+     if src[to:Rbrace-1] holds anything but white space, to = from + len(TrimRight(src[from:Rbrace-1], " \t")); return src[from:to]
    lbrace, rbrace, elt_ends are token.Pos values (1-based); has_code abstracts the unicode.IsSpace scan. *)
+(* strings.TrimRight(s, " \t") *)
+Fixpoint drop_blank_tab (r : bytes) : bytes :=
+  match r with b :: t => if Byte.eqb b x20 || Byte.eqb b x09 then drop_blank_tab t else r | [] => [] end.
+Definition trim_right_bt (s : bytes) : bytes := rev (drop_blank_tab (rev s)).
 Definition slice_args_prefix : bytes := bs "package main" ++ [x0a] ++ bs "var templ_args = []any{".
 Definition slice_args (has_code : bytes -> bool) (content : bytes) (lbrace rbrace : Z) (elt_ends : list Z) : option bytes :=
   let src := slice_args_prefix ++ content ++ bs "}" in
@@ -121,8 +125,8 @@ Definition slice_args (has_code : bytes -> bool) (content : bytes) (lbrace rbrac
   match zslice src to (rbrace - 1)%Z with
   | None => None
   | Some between =>
-      let to := if has_code between then (rbrace - 1)%Z else to in
-      zslice src from to
+      (* fix b5f9c20: the code up to the brace is kept, the blanks and tabs in front of the brace are not *)
+      if has_code between then option_map trim_right_bt (zslice src from (rbrace - 1)%Z) else zslice src from to
   end.
 
 (* goparser.go parseGoFuncDecl, after goexpression.Func returned expr:
